@@ -1,8 +1,422 @@
 import PyresampleModel.Model.C06
+import PyresampleModel.Proofs.Num
+import Mathlib.Tactic.LinearCombination
 
 /-
-  C06 — property theorems (stub: none yet).
+  C06 — property theorems: bilinear resampling interpolates. Convex weights whatever the solution path; the two quadratic
+  branches return fractional distances whose bilinear map is the target location (so affine fields are reproduced exactly)
+  whenever the root used is a root of the quadratic — the executable certificate `certified`; corner selection picks the
+  nearest neighbour strictly inside each quadrant; the parallelogram branch is sound only without shear (F10).
+  `np.sqrt` is a parameter: `r * r = discriminant` is assumed of the value it returns.
 -/
 namespace PyresampleModel.C06
+
+
+/-! ### the weighted sum -/
+
+/-- the four weights are non-negative and sum to one -/
+theorem resample_weights (s t : Rat) (hs : 0 ≤ s ∧ s ≤ 1) (ht : 0 ≤ t ∧ t ≤ 1) :
+    0 ≤ (1 - s) * (1 - t) ∧ 0 ≤ s * (1 - t) ∧ 0 ≤ (1 - s) * t ∧ 0 ≤ s * t ∧
+    (1 - s) * (1 - t) + s * (1 - t) + (1 - s) * t + s * t = 1 := by
+  refine ⟨mul_nonneg (by linarith) (by linarith), mul_nonneg hs.1 (by linarith),
+    mul_nonneg (by linarith) ht.1, mul_nonneg hs.1 ht.1, by ring⟩
+
+/-- a constant field is reproduced -/
+theorem resample_const (v s t : Rat) : resample v v v v s t = v := by
+  simp only [resample]; ring
+
+/-- maximum principle: the value lies within the range of the four corner values -/
+theorem resample_convex (v1 v2 v3 v4 s t lo hi : Rat) (hs : 0 ≤ s ∧ s ≤ 1) (ht : 0 ≤ t ∧ t ≤ 1)
+    (h1 : lo ≤ v1 ∧ v1 ≤ hi) (h2 : lo ≤ v2 ∧ v2 ≤ hi) (h3 : lo ≤ v3 ∧ v3 ≤ hi) (h4 : lo ≤ v4 ∧ v4 ≤ hi) :
+    lo ≤ resample v1 v2 v3 v4 s t ∧ resample v1 v2 v3 v4 s t ≤ hi := by
+  obtain ⟨a1, a2, a3, a4, hsum⟩ := resample_weights s t hs ht
+  have e : resample v1 v2 v3 v4 s t =
+      (1 - s) * (1 - t) * v1 + s * (1 - t) * v2 + (1 - s) * t * v3 + s * t * v4 := by
+    simp only [resample]; ring
+  rw [e]
+  constructor
+  · nlinarith [mul_le_mul_of_nonneg_left h1.1 a1, mul_le_mul_of_nonneg_left h2.1 a2,
+      mul_le_mul_of_nonneg_left h3.1 a3, mul_le_mul_of_nonneg_left h4.1 a4]
+  · nlinarith [mul_le_mul_of_nonneg_left h1.2 a1, mul_le_mul_of_nonneg_left h2.2 a2,
+      mul_le_mul_of_nonneg_left h3.2 a3, mul_le_mul_of_nonneg_left h4.2 a4]
+
+/-- an affine function of the projection coordinates, sampled at the four corners, is reproduced at the image of
+(s, t) under the bilinear map of the quadrilateral -/
+theorem resample_affine (α β γ : Rat) (p1 p2 p3 p4 : Pt) (s t : Rat) :
+    resample (α + β * p1.x + γ * p1.y) (α + β * p2.x + γ * p2.y) (α + β * p3.x + γ * p3.y) (α + β * p4.x + γ * p4.y) s t =
+      α + β * (bilinMap p1 p2 p3 p4 s t).x + γ * (bilinMap p1 p2 p3 p4 s t).y := by
+  simp only [resample, bilinMap]; ring
+
+/-! ### helpers about the option plumbing -/
+
+theorem keep01_some {o : Option Rat} {v : Rat} (h : keep01 o = some v) : o = some v ∧ 0 ≤ v ∧ v ≤ 1 := by
+  cases o with
+  | none => simp [keep01] at h
+  | some w =>
+    simp only [keep01] at h
+    split at h
+    · rename_i hin
+      simp only [Option.some.injEq] at h; subst h
+      simp only [in01, Bool.and_eq_true, decide_eq_true_eq] at hin
+      exact ⟨rfl, hin.1, hin.2⟩
+    · simp at h
+
+theorem divQ_some {a b v : Rat} (h : divQ a b = some v) : b ≠ 0 ∧ v = a / b := by
+  unfold divQ at h
+  split at h
+  · simp at h
+  · rename_i hb; simp only [Option.some.injEq] at h; exact ⟨hb, h.symm⟩
+
+theorem both_some {t s : Option Rat} {t' s' : Rat} (h : both t s = some (t', s')) :
+    t = some t' ∧ s = some s' ∧ 0 ≤ t' ∧ t' ≤ 1 ∧ 0 ≤ s' ∧ s' ≤ 1 := by
+  cases t with
+  | none => simp [both] at h
+  | some a =>
+    cases s with
+    | none => simp [both] at h
+    | some b =>
+      simp only [both] at h
+      split at h
+      · rename_i hin
+        simp only [Option.some.injEq, Prod.mk.injEq] at h
+        obtain ⟨rfl, rfl⟩ := h
+        simp only [in01, Bool.and_eq_true, decide_eq_true_eq] at hin
+        exact ⟨rfl, rfl, hin.1.1, hin.1.2, hin.2.1, hin.2.2⟩
+      · simp at h
+
+/-! ### the quadratic -/
+
+/-- both candidates of the stable form are roots of the quadratic -/
+theorem stableRoots_are_roots (a b c r : Rat) (hr : r * r = b * b - 4 * a * c) (v : Rat)
+    (h : (stableRoots (a, b, c) r).1 = some v ∨ (stableRoots (a, b, c) r).2 = some v) :
+    a * v * v + b * v + c = 0 := by
+  have key : ∀ q : Rat, q = -(1/2 : Rat) * (b + (if b < 0 then -1 else 1) * r) → q * q + b * q + a * c = 0 := by
+    intro q hq
+    subst hq
+    split <;> nlinarith [hr]
+  have hQA : ∀ q : Rat, q * q + b * q + a * c = 0 → divQ q a = some v → a * v * v + b * v + c = 0 := by
+    intro q hq hd
+    obtain ⟨ha, rfl⟩ := divQ_some hd
+    field_simp
+    nlinarith [hq]
+  have hCQ : ∀ q : Rat, q * q + b * q + a * c = 0 → divQ c q = some v → a * v * v + b * v + c = 0 := by
+    intro q hq hd
+    obtain ⟨hq0, rfl⟩ := divQ_some hd
+    field_simp
+    have : c * (a * c + b * q + q * q) = 0 := by rw [show a * c + b * q + q * q = q * q + b * q + a * c by ring, hq]; ring
+    nlinarith [this]
+  simp only [stableRoots] at h
+  by_cases hb : b < 0
+  · simp only [hb, if_true] at h
+    have k := key _ rfl
+    simp only [hb, if_true] at k
+    rcases h with h | h
+    · exact hQA _ k h
+    · exact hCQ _ k h
+  · simp only [hb, if_false] at h
+    have k := key _ rfl
+    simp only [hb, if_false] at k
+    rcases h with h | h
+    · exact hCQ _ k h
+    · exact hQA _ k h
+
+/-- what `_solve_quadratic` returns: inside [0, 1]; a root of the quadratic unless it is the linear fallback, which is
+a root exactly when `a = 0` -/
+theorem solveQuadratic_spec (a b c : Rat) (r : Option Rat) (hr : ∀ r', r = some r' → r' * r' = b * b - 4 * a * c)
+    (v : Rat) (rt : Root) (h : solveQuadratic (a, b, c) r = some (v, rt)) :
+    0 ≤ v ∧ v ≤ 1 ∧ ((rt ≠ .lin ∨ a = 0) → a * v * v + b * v + c = 0) := by
+  simp only [solveQuadratic] at h
+  split at h
+  · rename_i w hk
+    simp only [Option.some.injEq, Prod.mk.injEq] at h
+    obtain ⟨rfl, rfl⟩ := h
+    obtain ⟨he, h0, h1⟩ := keep01_some hk
+    refine ⟨h0, h1, fun _ => ?_⟩
+    cases r with
+    | none => simp at he
+    | some r' => exact stableRoots_are_roots a b c r' (hr r' rfl) _ (Or.inl he)
+  · split at h
+    · rename_i w hk
+      simp only [Option.some.injEq, Prod.mk.injEq] at h
+      obtain ⟨rfl, rfl⟩ := h
+      obtain ⟨he, h0, h1⟩ := keep01_some hk
+      refine ⟨h0, h1, fun _ => ?_⟩
+      cases r with
+      | none => simp at he
+      | some r' => exact stableRoots_are_roots a b c r' (hr r' rfl) _ (Or.inr he)
+    · split at h
+      · rename_i w hk
+        simp only [Option.some.injEq, Prod.mk.injEq] at h
+        obtain ⟨rfl, rfl⟩ := h
+        obtain ⟨he, h0, h1⟩ := keep01_some hk
+        refine ⟨h0, h1, fun hcond => ?_⟩
+        obtain ⟨hb, rfl⟩ := divQ_some he
+        rcases hcond with hc | ha
+        · exact absurd rfl hc
+        · subst ha; field_simp; ring
+      · simp at h
+
+theorem solveAnother_some {f : Option Rat} {y1 y2 y3 y4 oy g : Rat} (h : solveAnother f y1 y2 y3 y4 oy = some g) :
+    ∃ f', f = some f' ∧ (y3 + (y4 - y3) * f' - y1 - (y2 - y1) * f') ≠ 0 ∧
+      g * (y3 + (y4 - y3) * f' - y1 - (y2 - y1) * f') = oy - y1 - (y2 - y1) * f' ∧ 0 ≤ g ∧ g ≤ 1 := by
+  cases f with
+  | none => simp [solveAnother] at h
+  | some f' =>
+    simp only [solveAnother] at h
+    split at h
+    · simp at h
+    · obtain ⟨he, h0, h1⟩ := keep01_some h
+      obtain ⟨hd, rfl⟩ := divQ_some he
+      refine ⟨f', rfl, hd, ?_, h0, h1⟩
+      exact div_mul_cancel₀ _ hd
+
+
+
+
+/-- the quadratic of `_calc_abc` is the condition "the target lies on the line through the points at fraction `f` of the two
+sides p1→p3 and p2→p4" (cross product = 0) -/
+theorem calcABC_cross (p1 p2 p3 p4 : Pt) (ox oy f : Rat) :
+    (calcABC p1 p2 p3 p4 oy ox).1 * f * f + (calcABC p1 p2 p3 p4 oy ox).2.1 * f + (calcABC p1 p2 p3 p4 oy ox).2.2 =
+      (oy - (p1.y + f * (p3.y - p1.y))) * ((p2.x + f * (p4.x - p2.x)) - (p1.x + f * (p3.x - p1.x))) -
+      (ox - (p1.x + f * (p3.x - p1.x))) * ((p2.y + f * (p4.y - p2.y)) - (p1.y + f * (p3.y - p1.y))) := by
+  simp only [calcABC]; ring
+
+/-- geometric core shared by the two quadratic branches: `f` solves the cross-product condition for sides q1→q3, q2→q4 and
+`g` is the position of the target's y between the two side points: then the bilinear map of (g along q1→q2, f along q1→q3)
+hits the target -/
+theorem branch_core (q1 q2 q3 q4 : Pt) (ox oy f g : Rat)
+    (hq : (calcABC q1 q2 q3 q4 oy ox).1 * f * f + (calcABC q1 q2 q3 q4 oy ox).2.1 * f + (calcABC q1 q2 q3 q4 oy ox).2.2 = 0)
+    (hd : (q2.y + (q4.y - q2.y) * f - q1.y - (q3.y - q1.y) * f) ≠ 0)
+    (hg : g * (q2.y + (q4.y - q2.y) * f - q1.y - (q3.y - q1.y) * f) = oy - q1.y - (q3.y - q1.y) * f) :
+    resample q1.x q2.x q3.x q4.x g f = ox ∧ resample q1.y q2.y q3.y q4.y g f = oy := by
+  rw [calcABC_cross] at hq
+  have hy : resample q1.y q2.y q3.y q4.y g f = oy := by
+    simp only [resample]; linear_combination hg
+  refine ⟨?_, hy⟩
+  have : (resample q1.x q2.x q3.x q4.x g f - ox) * (q2.y + (q4.y - q2.y) * f - q1.y - (q3.y - q1.y) * f) = 0 := by
+    simp only [resample]
+    linear_combination hq + ((q2.x + f * (q4.x - q2.x)) - (q1.x + f * (q3.x - q1.x))) * hg
+  rcases mul_eq_zero.mp this with h | h
+  · linarith
+  · exact absurd h hd
+
+/-- **the general (irregular) branch is sound**: if it returns (t, s) and the root it used is a root of the quadratic — always
+the case unless the linear fallback `-c / b` was taken with `a ≠ 0` — the bilinear map of the quadrilateral sends (s, t) to
+the target location -/
+theorem irregular_sound (p1 p2 p3 p4 : Pt) (ox oy : Rat) (r : Option Rat)
+    (hr : ∀ r', r = some r' → r' * r' = disc (calcABC p1 p2 p3 p4 oy ox))
+    (t s : Rat) (h : irregular p1 p2 p3 p4 ox oy r = some (t, s)) :
+    ∃ rt, irregularRoot p1 p2 p3 p4 ox oy r = some (t, rt) ∧
+      ((rt ≠ .lin ∨ (calcABC p1 p2 p3 p4 oy ox).1 = 0) → bilinMap p1 p2 p3 p4 s t = ⟨ox, oy⟩) := by
+  simp only [irregular] at h
+  obtain ⟨ht, hs, -, -, -, -⟩ := both_some h
+  cases hroot : irregularRoot p1 p2 p3 p4 ox oy r with
+  | none => rw [hroot] at ht; simp at ht
+  | some vr =>
+    obtain ⟨v, rt⟩ := vr
+    rw [hroot] at ht
+    simp only [Option.map_some, Option.some.injEq] at ht
+    subst ht
+    refine ⟨rt, rfl, fun hcond => ?_⟩
+    rw [hroot] at hs
+    simp only [Option.map_some] at hs
+    obtain ⟨f', hf, hd, hg, -, -⟩ := solveAnother_some hs
+    simp only [Option.some.injEq] at hf
+    subst hf
+    simp only [irregularRoot] at hroot
+    have hspec := solveQuadratic_spec _ _ _ r (by simpa [disc] using hr) v rt (by simpa using hroot)
+    have hq := hspec.2.2 hcond
+    obtain ⟨hx, hy⟩ := branch_core p1 p2 p3 p4 ox oy v s hq hd hg
+    simp only [bilinMap, hx, hy]
+
+/-- **the uprights-parallel branch is sound** (same statement with the roles of the two pairs of sides exchanged) -/
+theorem uprights_sound (p1 p2 p3 p4 : Pt) (ox oy : Rat) (r : Option Rat)
+    (hr : ∀ r', r = some r' → r' * r' = disc (calcABC p1 p3 p2 p4 oy ox))
+    (t s : Rat) (h : uprights p1 p2 p3 p4 ox oy r = some (t, s)) :
+    ∃ rt, uprightsRoot p1 p2 p3 p4 ox oy r = some (s, rt) ∧
+      ((rt ≠ .lin ∨ (calcABC p1 p3 p2 p4 oy ox).1 = 0) → bilinMap p1 p2 p3 p4 s t = ⟨ox, oy⟩) := by
+  simp only [uprights] at h
+  obtain ⟨ht, hs, -, -, -, -⟩ := both_some h
+  cases hroot : uprightsRoot p1 p2 p3 p4 ox oy r with
+  | none => rw [hroot] at hs; simp at hs
+  | some vr =>
+    obtain ⟨v, rt⟩ := vr
+    rw [hroot] at hs
+    simp only [Option.map_some, Option.some.injEq] at hs
+    subst hs
+    refine ⟨rt, rfl, fun hcond => ?_⟩
+    rw [hroot] at ht
+    simp only [Option.map_some] at ht
+    obtain ⟨f', hf, hd, hg, -, -⟩ := solveAnother_some ht
+    simp only [Option.some.injEq] at hf
+    subst hf
+    simp only [uprightsRoot] at hroot
+    have hspec := solveQuadratic_spec _ _ _ r (by simpa [disc] using hr) v rt (by simpa using hroot)
+    have hq := hspec.2.2 hcond
+    obtain ⟨hx, hy⟩ := branch_core p1 p3 p2 p4 ox oy v t hq hd hg
+    simp only [bilinMap]
+    have ex : resample p1.x p2.x p3.x p4.x v t = resample p1.x p3.x p2.x p4.x t v := by simp only [resample]; ring
+    have ey : resample p1.y p2.y p3.y p4.y v t = resample p1.y p3.y p2.y p4.y t v := by simp only [resample]; ring
+    rw [ex, ey, hx, hy]
+
+
+
+/-- **weights are always convex**: whatever branch produced them, the fractional distances lie in [0, 1] -/
+theorem fractional_range (p1 p2 p3 p4 : Pt) (ox oy : Rat) (r1 r2 : Option Rat) (t s : Rat) (b : Branch)
+    (h : fractional p1 p2 p3 p4 ox oy r1 r2 = some (t, s, b)) : 0 ≤ t ∧ t ≤ 1 ∧ 0 ≤ s ∧ s ≤ 1 := by
+  simp only [fractional] at h
+  split at h
+  · rename_i t' s' hi
+    simp only [Option.some.injEq, Prod.mk.injEq] at h
+    obtain ⟨rfl, rfl, -⟩ := h
+    simp only [irregular] at hi
+    obtain ⟨-, -, a, b', c, d⟩ := both_some hi
+    exact ⟨a, b', c, d⟩
+  · split at h
+    · rename_i t' s' hu
+      simp only [Option.some.injEq, Prod.mk.injEq] at h
+      obtain ⟨rfl, rfl, -⟩ := h
+      simp only [uprights] at hu
+      obtain ⟨-, -, a, b', c, d⟩ := both_some hu
+      exact ⟨a, b', c, d⟩
+    · split at h
+      · rename_i t' s' hp
+        simp only [Option.some.injEq, Prod.mk.injEq] at h
+        obtain ⟨rfl, rfl, -⟩ := h
+        simp only [parallelogram] at hp
+        obtain ⟨-, -, a, b', c, d⟩ := both_some hp
+        exact ⟨a, b', c, d⟩
+      · simp at h
+
+/-- a value is produced only when all four corners exist -/
+theorem fractionalOpt_needs_four (c1 c2 c3 c4 : Option Pt) (ox oy : Rat) (r1 r2 : Option Rat) (v : Rat × Rat × Branch)
+    (h : fractionalOpt c1 c2 c3 c4 ox oy r1 r2 = some v) :
+    ∃ p1 p2 p3 p4, c1 = some p1 ∧ c2 = some p2 ∧ c3 = some p3 ∧ c4 = some p4 ∧ fractional p1 p2 p3 p4 ox oy r1 r2 = some v := by
+  cases c1 <;> cases c2 <;> cases c3 <;> cases c4 <;> simp [fractionalOpt] at h ⊢
+  exact h
+
+/-- **certified results are exact**: with exact square roots, a certified solution path returns (t, s) whose bilinear map is the
+target location -/
+theorem certified_map (p1 p2 p3 p4 : Pt) (ox oy : Rat) (r1 r2 : Option Rat)
+    (hr1 : ∀ r', r1 = some r' → r' * r' = disc (calcABC p1 p2 p3 p4 oy ox))
+    (hr2 : ∀ r', r2 = some r' → r' * r' = disc (calcABC p1 p3 p2 p4 oy ox))
+    (t s : Rat) (b : Branch) (h : fractional p1 p2 p3 p4 ox oy r1 r2 = some (t, s, b))
+    (hc : certified p1 p2 p3 p4 ox oy r1 r2 = true) : bilinMap p1 p2 p3 p4 s t = ⟨ox, oy⟩ := by
+  simp only [fractional] at h
+  simp only [certified] at hc
+  split at h
+  · rename_i t' s' hi
+    simp only [Option.some.injEq, Prod.mk.injEq] at h
+    obtain ⟨rfl, rfl, -⟩ := h
+    obtain ⟨rt, hroot, himp⟩ := irregular_sound p1 p2 p3 p4 ox oy r1 hr1 _ _ hi
+    rw [hi, hroot] at hc
+    simp only [Bool.or_eq_true, bne_iff_ne, ne_eq, beq_iff_eq] at hc
+    exact himp hc
+  · rename_i hi
+    rw [hi] at hc
+    split at h
+    · rename_i t' s' hu
+      simp only [Option.some.injEq, Prod.mk.injEq] at h
+      obtain ⟨rfl, rfl, -⟩ := h
+      obtain ⟨rt, hroot, himp⟩ := uprights_sound p1 p2 p3 p4 ox oy r2 hr2 _ _ hu
+      rw [hu, hroot] at hc
+      simp only [Bool.or_eq_true, bne_iff_ne, ne_eq, beq_iff_eq] at hc
+      exact himp hc
+    · rename_i hu
+      rw [hu] at hc
+      simp at hc
+
+/-- **affine fields are reproduced exactly** on certified paths -/
+theorem certified_exact (p1 p2 p3 p4 : Pt) (ox oy : Rat) (r1 r2 : Option Rat)
+    (hr1 : ∀ r', r1 = some r' → r' * r' = disc (calcABC p1 p2 p3 p4 oy ox))
+    (hr2 : ∀ r', r2 = some r' → r' * r' = disc (calcABC p1 p3 p2 p4 oy ox))
+    (t s : Rat) (b : Branch) (h : fractional p1 p2 p3 p4 ox oy r1 r2 = some (t, s, b))
+    (hc : certified p1 p2 p3 p4 ox oy r1 r2 = true) (α β γ : Rat) :
+    resample (α + β * p1.x + γ * p1.y) (α + β * p2.x + γ * p2.y) (α + β * p3.x + γ * p3.y) (α + β * p4.x + γ * p4.y) s t =
+      α + β * ox + γ * oy := by
+  rw [resample_affine, certified_map p1 p2 p3 p4 ox oy r1 r2 hr1 hr2 t s b h hc]
+
+/-! ### corner selection -/
+
+/-- the chosen corner is the first neighbour (kd-tree order = nearest first) lying strictly inside the quadrant -/
+theorem pickCorner_spec (q : Nat) (ox oy : Rat) (nb : List (Option Pt)) (i : Nat) (h : pickCorner q ox oy nb = some i) :
+    ∃ p, nb[i]? = some (some p) ∧ inQuadrant q ox oy p = true ∧
+      ∀ j, j < i → ∀ p', nb[j]? = some (some p') → inQuadrant q ox oy p' = false := by
+  simp only [pickCorner] at h
+  rw [List.findIdx?_eq_some_iff_getElem] at h
+  obtain ⟨hi, hp, hbefore⟩ := h
+  cases hn : nb[i] with
+  | none => rw [hn] at hp; simp at hp
+  | some p =>
+    rw [hn] at hp
+    refine ⟨p, ?_, hp, ?_⟩
+    · rw [List.getElem?_eq_getElem hi, hn]
+    · intro j hj p' hp'
+      have hjl : j < nb.length := by omega
+      have := hbefore j hj
+      rw [List.getElem?_eq_getElem hjl] at hp'
+      simp only [Option.some.injEq] at hp'
+      rw [hp'] at this
+      simpa using this
+
+/-- the four quadrants: upper left, upper right, lower left, lower right of the target location — the chosen pixels surround it -/
+theorem inQuadrant_geometry (ox oy : Rat) (p : Pt) :
+    (inQuadrant 0 ox oy p = true ↔ p.x < ox ∧ oy < p.y) ∧ (inQuadrant 1 ox oy p = true ↔ ox < p.x ∧ oy < p.y) ∧
+    (inQuadrant 2 ox oy p = true ↔ p.x < ox ∧ p.y < oy) ∧ (inQuadrant 3 ox oy p = true ↔ ox < p.x ∧ p.y < oy) := by
+  simp only [inQuadrant, Bool.and_eq_true, decide_eq_true_eq]
+  refine ⟨?_, ?_, ?_, ?_⟩ <;> constructor <;> rintro ⟨a, b⟩ <;> constructor <;> linarith
+
+/-! ### the parallelogram branch -/
+
+/-- the branch never looks at the fourth corner. If the quadrilateral really is a parallelogram and its uprights have no
+x-component (`x_31 = 0`, e.g. an axis-aligned rectangle) the branch is sound … -/
+theorem parallelogram_sound_partial (p1 p2 p3 p4 : Pt) (ox oy t s : Rat)
+    (hpar : p4.x = p2.x + p3.x - p1.x ∧ p4.y = p2.y + p3.y - p1.y) (hx : p3.x = p1.x)
+    (h : parallelogram p1 p2 p3 ox oy = some (t, s)) : bilinMap p1 p2 p3 p4 s t = ⟨ox, oy⟩ := by
+  simp only [parallelogram] at h
+  obtain ⟨ht, hs, -, -, -, -⟩ := both_some h
+  obtain ⟨ht', -, -⟩ := keep01_some ht
+  obtain ⟨hden, htv⟩ := divQ_some ht'
+  rw [ht] at hs
+  simp only at hs
+  obtain ⟨hs', -, -⟩ := keep01_some hs
+  obtain ⟨hx21, hsv⟩ := divQ_some hs'
+  have e31 : p3.x - p1.x = 0 := by linarith
+  rw [e31] at hden htv hsv
+  simp only [mul_zero, sub_zero, zero_mul, add_zero] at hden htv hsv
+  have hy31 : p3.y - p1.y ≠ 0 := by
+    intro h0; apply hden; rw [h0]; ring
+  have hS : s * (p2.x - p1.x) = ox - p1.x := by rw [hsv]; field_simp
+  have hT : t * ((p2.x - p1.x) * (p3.y - p1.y)) = (p2.x - p1.x) * (oy - p1.y) - (p2.y - p1.y) * (ox - p1.x) := by
+    rw [htv]; field_simp
+  simp only [bilinMap, resample, Pt.mk.injEq]
+  rw [hpar.1, hpar.2]
+  constructor
+  · linear_combination hS + t * e31
+  · have : (p1.y * (1 - s) * (1 - t) + p2.y * s * (1 - t) + p3.y * (1 - s) * t + (p2.y + p3.y - p1.y) * s * t - oy) * (p2.x - p1.x) = 0 := by
+      linear_combination hT + (p2.y - p1.y) * hS
+    rcases mul_eq_zero.mp this with h' | h'
+    · linarith
+    · exact absurd h' hx21
+
+/-- … but for a sheared parallelogram the sign of the `x_31·t` term is wrong: the branch returns fractional distances whose
+bilinear map is NOT the target location (known finding F10) -/
+theorem parallelogram_sign_defect :
+    ∃ (p1 p2 p3 p4 : Pt) (ox oy t s : Rat), (p4.x = p2.x + p3.x - p1.x ∧ p4.y = p2.y + p3.y - p1.y) ∧
+      parallelogram p1 p2 p3 ox oy = some (t, s) ∧ bilinMap p1 p2 p3 p4 s t ≠ ⟨ox, oy⟩ :=
+  ⟨⟨-1, 1⟩, ⟨1, 1⟩, ⟨-2, -1⟩, ⟨0, -1⟩, -1/2, 0, 1/2, 0, by decide +kernel⟩
+
+
+/-! ### non-vacuity -/
+
+/-- the irregular quadrilateral of the repository's own unit test: t = 3/8, s = 1/2, certified, and exact -/
+example : fractional ⟨-1, 1⟩ ⟨1, 2⟩ ⟨-2, -1⟩ ⟨2, -4⟩ 0 0 (sqrtQ (disc (calcABC ⟨-1, 1⟩ ⟨1, 2⟩ ⟨-2, -1⟩ ⟨2, -4⟩ 0 0)))
+    (sqrtQ (disc (calcABC ⟨-1, 1⟩ ⟨-2, -1⟩ ⟨1, 2⟩ ⟨2, -4⟩ 0 0))) = some (3/8, 1/2, .irr) := by decide +kernel
+example : certified ⟨-1, 1⟩ ⟨1, 2⟩ ⟨-2, -1⟩ ⟨2, -4⟩ 0 0 (sqrtQ (disc (calcABC ⟨-1, 1⟩ ⟨1, 2⟩ ⟨-2, -1⟩ ⟨2, -4⟩ 0 0)))
+    (sqrtQ (disc (calcABC ⟨-1, 1⟩ ⟨-2, -1⟩ ⟨1, 2⟩ ⟨2, -4⟩ 0 0))) = true := by decide +kernel
+example : bilinMap ⟨-1, 1⟩ ⟨1, 2⟩ ⟨-2, -1⟩ ⟨2, -4⟩ (1/2) (3/8) = ⟨0, 0⟩ := by decide +kernel
+/-- an axis-aligned rectangle goes through the second branch (the first is ill-conditioned there) -/
+example : fractional ⟨-1, 1⟩ ⟨1, 1⟩ ⟨-1, -1⟩ ⟨1, -1⟩ 0 0 (sqrtQ (disc (calcABC ⟨-1, 1⟩ ⟨1, 1⟩ ⟨-1, -1⟩ ⟨1, -1⟩ 0 0)))
+    (sqrtQ (disc (calcABC ⟨-1, 1⟩ ⟨-1, -1⟩ ⟨1, 1⟩ ⟨1, -1⟩ 0 0))) = some (1/2, 1/2, .upr) := by decide +kernel
 
 end PyresampleModel.C06
